@@ -352,21 +352,27 @@ def clearLanes (file : File) (voff nv : Nat) : Nat → Nat → File × Option Fa
     if offset ≤ file.size then clearLanes (wr file offset (zeros (nv * 4))) voff nv k (lane + 1)
     else (file, some .bounds)
 
+/-- the vector half of `resetRegisterValue` (`if wf.CodeObject.WIVgprCount > 0 { … }`) -/
+def releaseV (t : TimingRF) (w : TWf) : TimingRF × Option Fault :=
+  if w.nv > 0 then
+    let r := clearLanes (t.vfileOf w) w.voff w.nv 64 0
+    ({ t with vfiles := t.vfiles.setIfInBounds w.simd r.1 }, r.2)
+  else (t, none)
+
+/-- the scalar half (`if wf.CodeObject.WFSgprCount > 0 { copy(sRegStorage[offset:], data) }`) -/
+def releaseS (t : TimingRF) (w : TWf) : TimingRF × Option Fault :=
+  if w.ns > 0 then
+    if w.soff ≤ t.sfile.size then ({ t with sfile := wr t.sfile w.soff (zeros (w.ns * 4)) }, none)
+    else (t, some .bounds)
+  else (t, none)
+
 /-- `SchedulerImpl.resetRegisterValue` -/
 def release (t : TimingRF) (wi : Nat) : TimingRF × Option Fault :=
   let w := t.wfs.getD wi default
-  let (t1, f1) :=
-    if w.nv > 0 then
-      let (file', f) := clearLanes (t.vfileOf w) w.voff w.nv 64 0
-      ({ t with vfiles := t.vfiles.setIfInBounds w.simd file' }, f)
-    else (t, none)
-  match f1 with
-  | some f => (t1, some f)
-  | none =>
-    if w.ns > 0 then
-      if w.soff ≤ t1.sfile.size then ({ t1 with sfile := wr t1.sfile w.soff (zeros (w.ns * 4)) }, none)
-      else (t1, some .bounds)
-    else (t1, none)
+  let r := releaseV t w
+  match r.2 with
+  | some f => (r.1, some f)
+  | none => releaseS r.1 w
 
 end TimingRF
 
